@@ -67,6 +67,35 @@ func storeMachine(t *rapid.T, prop string, kind gen.StoreKind) {
 		}
 		cl.label("start:widening")
 	}
+	// rankFirst: a rank lookup (or a min / max index query) as the very FIRST read after a mutation - the full observation
+	// that follows every step starts with iterations, which sort and reorganise: a lookup that relies on something the
+	// mutation left stale would be masked by them
+	rankFirst := func(t *rapid.T) {
+		e := u.exp()
+		if len(e) == 0 || rapid.IntRange(0, 2).Draw(t, "rankfirst") != 0 {
+			return
+		}
+		switch rapid.IntRange(0, 3).Draw(t, "firstread") {
+		case 0:
+			mn, _, _ := e.MinMax()
+			if got, err := u.s.MinIndex(); err != nil || got != mn {
+				t.Fatalf("%s %s: MinIndex() as the first read after a mutation = %d (%v), the model %s says %d", prop, kind, got, err, e, mn)
+			}
+		case 1:
+			_, mx, _ := e.MinMax()
+			if got, err := u.s.MaxIndex(); err != nil || got != mx {
+				t.Fatalf("%s %s: MaxIndex() as the first read after a mutation = %d (%v), the model %s says %d", prop, kind, got, err, e, mx)
+			}
+		default:
+			ranks := probeRanksFor(e, bud)
+			r := ranks[rapid.IntRange(0, len(ranks)-1).Draw(t, "rank")]
+			want, _ := e.KeyAtRank(r)
+			if got := u.s.KeyAtRank(r); got != want {
+				t.Fatalf("%s %s: KeyAtRank(%v) as the first read after a mutation = %d, the model %s says %d", prop, kind, r, got, e, want)
+			}
+		}
+		cl.label("first-read-after-mutation")
+	}
 	t.Repeat(map[string]func(*rapid.T){
 		"mutate": func(t *rapid.T) {
 			op := g.drawOp(t, u)
@@ -76,6 +105,7 @@ func storeMachine(t *rapid.T, prop string, kind gen.StoreKind) {
 			}
 			cl.label("op:" + op.Kind)
 			steps++
+			rankFirst(t)
 		},
 		"mutate-many": func(t *rapid.T) {
 			// several additions back to back with no read in between (reads sort/compact the paginated store:
@@ -103,6 +133,7 @@ func storeMachine(t *rapid.T, prop string, kind gen.StoreKind) {
 				steps++
 			}
 			cl.label("mutate-many")
+			rankFirst(t)
 		},
 		"clear-refill-same-size": func(t *rapid.T) {
 			// Clear, then as many distinct indexes as the store held at its last read, with no read in between: the
